@@ -1,5 +1,6 @@
 import CallbagModel.Inv.XViols
 import CallbagModel.Inv.Combine
+import CallbagModel.Inv.ComposeInst
 import CallbagModel.Inv.ConcatFull
 import CallbagModel.Inv.FlattenFull
 import CallbagModel.Inv.ForEachFull
@@ -71,6 +72,19 @@ deliveries (C02/C03). -/
 theorem C04_share_protocol {α : Type} :
     ∀ s, SReach (Share.machine α) s → ∀ v ∈ s.g.ph.viols, (∃ k, v = Viol.afterTerm k) ∨ (∃ k, v = Viol.afterDispose k) :=
   fun s hs => (ShareWeak.share_safe_weak s hs).1
+
+/-- pipelines `pipe!(source, op₁, …, opₙ)` of map / filter / scan / skip / take of ANY length (assume–guarantee, Inv/ComposeSafe.lean):
+the protocol part of C04 — no upstream subscribed twice or after the output is over, no Pull / Terminate / Error to an upstream that is
+not live — and, for closed pipelines ending in `for_each`, the same with `for_each` as the last stage. (The memory part of C04 — error
+relay, orphans at top level — is proved per operator above, not yet for pipelines: `_partial`.) -/
+theorem C04_pipeline_protocol_partial {S1 L1 S2 L2 α β γ : Type} {M1 : Machine S1 L1 α β} {M2 : Machine S2 L2 β γ}
+    (P1 : Pipeable M1) (P2 : Pipeable M2) : ∀ s, SReach (compose M1 M2) s → s.g.ph.viols = [] :=
+  fun s hs => ((P1.compose P2).safe s hs).1
+
+theorem C04_closed_pipeline_protocol_partial {S1 L1 S2 L2 α β γ : Type} {Msrc : Machine S1 L1 α β} {Mmid : Machine S2 L2 β γ}
+    (hsrc : UpSide Msrc) (hmid : Pipeable Mmid) :
+    ∀ s, SReach (compose (compose Msrc Mmid) (ForEach.machine γ)) s → s.g.ph.viols = [] :=
+  fun s hs => (closed_pipeline_safe hsrc hmid s hs).1
 
 /-- `combine!`: the full statement is FALSE (known findings KF2, KF3: the sink's Pull / Terminate / Error are also sent to members that
 have ended, and a Pull broadcast continues after a nested disposal; witnesses in `Thm/Counterexamples.lean`). What is proved: those
